@@ -128,11 +128,17 @@ def sequence_batch(pairs):
     return b
 
 
-def history_batch(mem, depth, budget):
-    """mem = (min, max|None).  Operation alphabet over one instance."""
+def history_batch(mem, depth, budget, mixed_segments=False):
+    """mem = (min, max|None).  Operation alphabet over one instance.
+    mixed_segments: passive and active segments interleaved (passive first), memory.init from two passive segments - the layout
+    that matters when the segments are concatenated into one external blob (-d gnu-ld)"""
     m = Module()
     m.mems.append(mem)
     m.datas.append(('passive', 0, b'', bytes([0xd0, 0xd1, 0xd2, 0xd3, 0xd4, 0xd5, 0xd6, 0xd7])))
+    if mixed_segments:
+        m.datas.append(('active', 0, i32_const(40), bytes([0xa1, 0xa2, 0xa3, 0xa4, 0xa5])))
+        m.datas.append(('passive', 0, b'', bytes([0xe0, 0xe1, 0xe2])))
+        m.datas.append(('active', 0, i32_const(43), bytes([0xb1, 0xb2, 0xb3, 0xb4])))
     m.datacount = True
     F = {}
     cases = []
@@ -152,6 +158,8 @@ def history_batch(mem, depth, budget):
     fn('memory.copy', 'iii', '', local_get(0) + local_get(1) + local_get(2) + memory_copy())
     fn('memory.init', 'iii', '', local_get(0) + local_get(1) + local_get(2) + memory_init(0))
     fn('data.drop', '', '', data_drop(0))
+    if mixed_segments:
+        fn('memory.init seg 2', 'iii', '', local_get(0) + local_get(1) + local_get(2) + memory_init(2))
     fn('i32.load8_u', 'i', 'i', local_get(0) + memop(0x2d))
     fn('i32.load8_s', 'i', 'i', local_get(0) + memop(0x2c))
     fn('i32.load16_s', 'i', 'i', local_get(0) + memop(0x2e))
@@ -175,6 +183,8 @@ def history_batch(mem, depth, budget):
     op_('memory.copy', 3, 3, 5); op_('memory.copy', 100, 0, 0); op_('memory.copy', 0, 8, PAGE - 8); op_('memory.copy', 8, 0, PAGE - 8)
     op_('memory.init', 20, 0, 8); op_('memory.init', PAGE - 2, 2, 6); op_('memory.init', 0, 8, 0); op_('memory.init', 0, 0, 9)
     op_('data.drop', flag=1)
+    if mixed_segments:
+        op_('memory.init seg 2', 60, 0, 3); op_('memory.init seg 2', 30, 1, 2); op_('i32.load', 40); op_('i32.load', 44); op_('i32.load', 60)
     op_('i32.load8_u', 0); op_('i32.load8_s', PAGE - 1); op_('i32.load16_s', PAGE - 1); op_('i32.load', PAGE - 2); op_('i32.load', 3)
     op_('i64.load', PAGE - 4); op_('i64.load', 0); op_('i64.load32_s', 3); op_('f64.load', 7); op_('i32.load8_u', PAGE + 5); op_('i32.load', 20)
     b = Batch(m.encode(), cases, [('explicit', [])])
@@ -194,6 +204,10 @@ def main(tier):
         jobs.append(('history-asan mem=%s' % (mem,), history_batch(mem, 2, budget), {'cflags': ('-O1', '-fsanitize=address', '-fno-omit-frame-pointer'), 'drv_args': (2, secs), 'timeout': secs + 60}))
     if tier == 'thorough':
         jobs.append(('flavours-gccO2', flavour_batch(), {'cc': 'gcc', 'cflags': ('-O2',), 'timeout': 900}))
+    # interleaved passive/active segments, data segments embedded as arrays and as one external blob (-d gnu-ld, linked with ld -r -b binary)
+    for dmode in ('arrays', 'gnu-ld'):
+        jobs.append(('history mixed-segments -d %s' % dmode, history_batch((1, 2), 2 if tier == 'quick' else 3, budget, mixed_segments=True),
+                     {'cc': 'gcc', 'cflags': ('-O1',), 'drv_args': (2 if tier == 'quick' else 3, secs), 'timeout': secs + 60, 'w2c2_args': ('-d', dmode)}))
     jobs.append(('padded-memarg', padded_memarg_batch(), {'cc': 'gcc', 'cflags': ('-O1',), 'timeout': 900}))
     jobs.append(('huge-static-offsets', huge_offset_batch(), {'cc': 'gcc', 'cflags': ('-O1',), 'timeout': 900}))
     # (c) store/store/load sequences inside one function, optimising compilers
